@@ -13,15 +13,16 @@ CONSTANTS MaxSize, UseTimer, MaxOps
 Current == -1
 None == -2
 
-VARIABLES added, batch, token, armed, handed, nops
-vars == <<added, batch, token, armed, handed, nops>>
+VARIABLES added, batch, token, armed, lastSet, inflight, handed, nops
+vars == <<added, batch, token, armed, lastSet, inflight, handed, nops>>
 
-Init == added = <<>> /\ batch = <<>> /\ token = 0 /\ armed = None /\ handed = <<>> /\ nops = 0
+Init == added = <<>> /\ batch = <<>> /\ token = 0 /\ armed = None /\ lastSet = None /\ inflight = <<>> /\ handed = <<>> /\ nops = 0
 
 Add(x) ==
   /\ added' = Append(added, x) /\ batch' = Append(batch, x)
   /\ armed' = IF batch = <<>> /\ UseTimer THEN token ELSE armed
-  /\ UNCHANGED <<token, handed>>
+  /\ lastSet' = IF batch = <<>> /\ UseTimer THEN token ELSE lastSet   \* the token is captured when the timer is SET
+  /\ UNCHANGED <<token, handed, inflight>>
 
 IsFullResult == Len(batch) >= MaxSize
 
@@ -31,19 +32,26 @@ Flush(tok) ==
   /\ IF FlushResult(tok) = <<>>
      THEN UNCHANGED <<batch, token, armed, handed>>
      ELSE /\ handed' = handed \o batch /\ batch' = <<>> /\ token' = token + 1 /\ armed' = None
-  /\ UNCHANGED added
+  /\ UNCHANGED <<added, lastSet, inflight>>
 
-\* timer expiry: delivers the token the timer was armed with (even when stale)
-Fire == armed # None /\ armed' = None /\ UNCHANGED <<added, batch, token, handed>>
+\* timer expiry is two steps: the timer goes off (its callback is dispatched:
+\* from then on Stop cannot recall it) and, later, the callback delivers on
+\* BatchTimedOut the token the timer was SET with - possibly stale by then
+Expire == armed # None /\ inflight' = Append(inflight, lastSet) /\ armed' = None
+          /\ UNCHANGED <<added, batch, token, lastSet, handed>>
+Deliver == inflight # <<>> /\ inflight' = Tail(inflight) /\ UNCHANGED <<added, batch, token, armed, lastSet, handed>>
+DeliveredToken == Head(inflight)
 
 Next == /\ nops < MaxOps /\ nops' = nops + 1
         /\ \/ Add(Len(added) + 1)
            \/ \E t \in {Current} \cup 0..(token + 1) : Flush(t)
-           \/ Fire
-           \/ UNCHANGED <<added, batch, token, armed, handed>>   \* IsFull
+           \/ Expire \/ Deliver
+           \/ UNCHANGED <<added, batch, token, armed, lastSet, inflight, handed>>   \* IsFull
 Spec == Init /\ [][Next]_vars
 
 HandedOK == handed \o batch = added
 ArmedOK == armed # None => (armed <= token /\ UseTimer)
 ArmedCurrentHasBatch == armed = token => batch # <<>>
+\* a delivered token never names a batch newer than the one whose timer expired
+InflightOld == \A i \in 1..Len(inflight) : inflight[i] <= token
 =============================================================================
